@@ -152,6 +152,20 @@ add("C20",
     "the model. Axiom-free (no real-number axioms needed).",
     "Rocq/Coq proof over Q (ring/field, induction over segments) on a translated model + differential correspondence")
 
+add("C07",
+    "Coq theorems (Coquelicot is_derive over R) about the TRANSLATED metric functions and metric derivatives (regenerated from "
+    "fitness_function.py / gradient_mixin.py on every run, so a changed sign, factor or pairing breaks the proof): each of "
+    "MAE/MSE/RMSE/negative-NMLL-Laplace equals its textbook formula; MAE/MSE/RMSE are >= 0 and 0 on a zero residual; the "
+    "derivative function paired with each metric is the derivative of that metric with respect to any constant, given the "
+    "residual Jacobian (side conditions: no zero residual for MAE, positive MSE for RMSE/NMLL); the residual/Jacobian assembly "
+    "(absolute and relative) preserves 'is the derivative of'; each public entry point adds exactly one to the counter. Tie: "
+    "translator for the 8 functions; correspondence of the assembly and counter on integer data (exact fractions, inside Coq); "
+    "oracle with independent formulas and finite differences on real AGraph equations, also after a training-data swap.",
+    "Trusted: Coq kernel; axioms of the standard-library reals and what Coquelicot pulls in (ClassicalDedekindReals.sig_not_dec, "
+    "sig_forall_dec, FunctionalExtensionality.functional_extensionality_dep, Classical_Prop.classic); tr_metrics.py; the harness. "
+    "Not modelled: float rounding, use_linear_correction. That the model Jacobian df/dc is right is C02.",
+    "Rocq/Coq proof over R on a translated model + translator + differential correspondence + finite-difference oracle")
+
 NOT_APPLICABLE = []
 def main():
     props = [json.loads(l)["id"] for l in open(os.path.join(HERE, "properties.jsonl"))]
